@@ -572,6 +572,7 @@ func checkC08(w *World, r *Report) {
 	checkNameShortcut(w, r)
 	checkPrecedenceDescent(w, r)
 	checkDecimalLiterals(w, r)
+	checkExpressionShortcuts(w, r)
 	checkNumberFormatting(w, r)
 	checkMembershipEquality(w, r, evalCases)
 	checkRelationalNumericFirst(w, r, evalCases)
